@@ -10,9 +10,15 @@ NETS = ["mainnet", "testnet", "signet", "regtest"]
 RULE = ("Integers sweep every width boundary (0xfc/0xfd/0xffff/0x10000/0xffffffff/2^32/2^64-1, out of range "
         "on both sides); envelopes: commands of every length 0..12, payloads 0..100000 bytes, all four networks, "
         "every truncation offset and single-byte corruption of sampled envelopes; messages: random field values "
-        "plus boundary counts.")
+        "plus boundary counts; strict protocol decoders on the bytes the serialize-only messages emit, on a recorded "
+        "mainnet version message and on damaged copies; SimpleNode.wait_for / handshake on in-memory streams of 0..5 "
+        "envelopes before the wanted one (valid, truncated, byte-corrupted, other network, wanted never arriving); "
+        "Block.parse_header(hex=...) on valid / upper-case / white-space / odd / non-hex text.")
 TRUSTED = ["hashlib (sha256) — hash256 is a universally quantified function in the theorems",
-           "modelled, not verified: object plumbing of the message classes; SimpleNode socket I/O is out of scope"]
+           "modelled, not verified: object plumbing of the message classes; real socket I/O is out of scope — SimpleNode "
+           "runs on a BytesIO stream and a recording socket, time.time / randint are substituted from the harness",
+           "coq/Spec/P2P.v (protocol transcription) — compared on every run with independent struct-based reference "
+           "decoders and with a version message recorded on mainnet"]
 ASSUMPTIONS = ["hash256 has 32-byte output (hypothesis of the envelope theorems)",
                "count fields of cfheaders/cfcheckpt bodies in generated inputs stay below 20000 "
                "(the parsers loop count times without raising; not an error behaviour)"]
@@ -144,6 +150,259 @@ IMPL = {
     "cfheaders_parse": i_cfheaders_parse,
     "cfcheckpt_parse": i_cfcheckpt_parse,
 }
+
+# ---------------------------------------------------------------- deepening: protocol reference decoders (strict),
+# written from the protocol documentation (CompactSize as in Bitcoin Core's ReadCompactSize; the port of a network
+# address is BIG-endian), independent of buidl/network.py and of coq/Spec/P2P.v
+
+# a version message recorded on mainnet (Satoshi:0.9.3), from buidl/test/test_network.py: port 8333 is "208d" on the wire
+REAL_VERSION_ENVELOPE = bytes.fromhex(
+    "f9beb4d976657273696f6e0000000000650000005f1a69d2721101000100000000000000bc8f5e5400000000010000000000000000000000"
+    "000000000000ffffc61b6409208d010000000000000000000000000000000000ffffcb0071c0208d128035cbc97953f80f2f5361746f7368"
+    "693a302e392e332fcf05050001")
+
+
+def _take(s, n):
+    if n < 0 or len(s) < n:
+        raise ValueError("short")
+    return s[:n], s[n:]
+
+
+def _le(b):
+    return int.from_bytes(b, "little")
+
+
+def _ref_read_cs(s):
+    """ReadCompactSize: end of stream and non-canonical encodings are errors"""
+    if not s:
+        raise ValueError("empty")
+    c = s[0]
+    if c < 253:
+        return c, s[1:]
+    w, low = {253: (2, 253), 254: (4, 0x10000), 255: (8, 0x100000000)}[c]
+    b, r = _take(s[1:], w)
+    n = _le(b)
+    if n < low:
+        raise ValueError("non-canonical")
+    return n, r
+
+
+def _ref_addr(s):
+    sv, s = _take(s, 8)
+    ip, s = _take(s, 16)
+    pt, s = _take(s, 2)
+    return [_le(sv), ip, struct.unpack(">H", pt)[0]], s
+
+
+def _ref_version_decode(s):
+    v, s = _take(s, 4)
+    sv, s = _take(s, 8)
+    ts, s = _take(s, 8)
+    ar, s = _ref_addr(s)
+    af, s = _ref_addr(s)
+    nonce, s = _take(s, 8)
+    n, s = _ref_read_cs(s)
+    ua, s = _take(s, n)
+    sh, s = _take(s, 4)
+    r, s = _take(s, 1)
+    return [[_le(v), _le(sv), _le(ts), ar, af, nonce, ua, _le(sh), int(r[0] != 0)], s]
+
+
+def _ref_getheaders_decode(s):
+    v, s = _take(s, 4)
+    n, s = _ref_read_cs(s)
+    if len(s) < 32 * n:
+        raise ValueError("short")
+    loc = []
+    for _ in range(n):
+        h, s = _take(s, 32)
+        loc.append(h[::-1])
+    stop, s = _take(s, 32)
+    return [_le(v), loc, stop[::-1], s]
+
+
+def _ref_getdata_decode(s):
+    n, s = _ref_read_cs(s)
+    if len(s) < 36 * n:
+        raise ValueError("short")
+    items = []
+    for _ in range(n):
+        t, s = _take(s, 4)
+        h, s = _take(s, 32)
+        items.append([_le(t), h[::-1]])
+    return [items, s]
+
+
+def _ref_getcfilters_decode(s):
+    t, s = _take(s, 1)
+    h, s = _take(s, 4)
+    st, s = _take(s, 32)
+    return [t[0], _le(h), st[::-1], s]
+
+
+def _ref_getcfcheckpt_decode(s):
+    t, s = _take(s, 1)
+    st, s = _take(s, 32)
+    return [t[0], st[::-1], s]
+
+
+def _ref_version_layout(f, port_fmt=">H"):
+    """the protocol's version message for the field list of i_version_serialize"""
+    v, sv, ts, rs, rip, rp, ss, sip, sp, nonce, ua, lb, relay = f
+    return struct.pack("<IQQ", v, sv, ts) + struct.pack("<Q", rs) + b"\x00" * 10 + b"\xff\xff" + rip + \
+        struct.pack(port_fmt, rp) + struct.pack("<Q", ss) + b"\x00" * 10 + b"\xff\xff" + sip + \
+        struct.pack(port_fmt, sp) + nonce + _ref_varint(len(ua)) + ua + struct.pack("<I", lb) + \
+        (b"\x01" if relay else b"\x00")
+
+
+# ---------------------------------------------------------------- deepening: SimpleNode on an in-memory stream
+
+class _FakeSock:
+    def __init__(self):
+        self.sent = []
+
+    def sendall(self, b):
+        self.sent.append(bytes(b))
+
+
+def _node(net, stream):
+    n = object.__new__(network.SimpleNode)      # no connection: the socket is replaced
+    n.network = NETS[net]
+    n.logging = False
+    n.socket = _FakeSock()
+    n.stream = BytesIO(stream)
+    return n
+
+
+CLASSES = {b"verack": network.VerAckMessage, b"ping": network.PingMessage, b"pong": network.PongMessage,
+           b"headers": network.HeadersMessage, b"cfilter": compactfilter.CFilterMessage,
+           b"cfheaders": compactfilter.CFHeadersMessage, b"cfcheckpt": compactfilter.CFCheckPointMessage}
+
+
+def _msgval(m):
+    if isinstance(m, network.VerAckMessage):
+        return [0]
+    if isinstance(m, network.PingMessage):
+        return [1, m.nonce]
+    if isinstance(m, network.PongMessage):
+        return [2, m.nonce]
+    if isinstance(m, network.HeadersMessage):
+        return [3, [_hdr(h) for h in m.headers]]
+    if isinstance(m, compactfilter.CFilterMessage):
+        return [4, m.filter_type, m.block_hash, m.filter_bytes, sorted(m.cf.hashes)]
+    if isinstance(m, compactfilter.CFHeadersMessage):
+        return [5, m.filter_type, m.stop_hash, m.previous_filter_header, list(m.filter_hashes), m.last_header]
+    if isinstance(m, compactfilter.CFCheckPointMessage):
+        return [6, m.filter_type, m.stop_hash, list(m.filter_headers)]
+    raise TypeError(m)
+
+
+def i_node_wait_for(net, wanted, stream):
+    n = _node(net, stream)
+    m = n.wait_for(*[CLASSES[w] for w in wanted])
+    return [_msgval(m), n.stream.read(), list(n.socket.sent)]
+
+
+def i_node_send(net, cmd, payload):
+    n = _node(net, b"")
+    n.send(network.GenericMessage(cmd, payload))
+    assert len(n.socket.sent) == 1
+    return n.socket.sent[0]
+
+
+class _Patched:
+    """time.time() and randint as seen by buidl.network replaced for the duration of a call"""
+
+    def __init__(self, now, pick):
+        self.now, self.pick = now, pick
+
+    def __enter__(self):
+        self.old = (network.time, network.randint)
+        now, pick = self.now, self.pick
+
+        class _T:
+            @staticmethod
+            def time():
+                return now
+        network.time = _T
+        network.randint = lambda a, b: pick(a, b)
+
+    def __exit__(self, *exc):
+        network.time, network.randint = self.old
+
+
+def _pick_value(r):
+    def pick(a, b):
+        if (a, b) != (0, 2 ** 64 - 1):
+            raise AssertionError(f"randint called with ({a}, {b}); the model assumes (0, 2**64 - 1)")
+        return r
+    return pick
+
+
+def i_randint_bounds():
+    """the arguments VersionMessage() passes to randint (Model/Wire.v randint_lo / randint_hi)"""
+    seen = []
+
+    def pick(a, b):
+        seen.append([a, b])
+        return a
+    with _Patched(0, pick):
+        network.VersionMessage()
+    assert len(seen) == 1
+    return seen[0]
+
+
+def i_version_default_serialize(now, r):
+    with _Patched(now, _pick_value(r)):
+        return network.VersionMessage().serialize()
+
+
+def i_node_handshake(net, now, r, stream):
+    n = _node(net, stream)
+    with _Patched(now, _pick_value(r)):
+        n.handshake()
+    return [n.stream.read(), list(n.socket.sent)]
+
+
+def i_int_to_byte(n):
+    return helper.int_to_byte(n)
+
+
+def i_byte_to_int(b):
+    return helper.byte_to_int(b)
+
+
+def i_parse_header_hex(text):
+    h = block.Block.parse_header(hex=text.decode("utf-8"))
+    return _hdr(h)
+
+
+def i_cfilter_eq(raw1, raw2):
+    a = compactfilter.CFilterMessage.parse(BytesIO(raw1))
+    b = compactfilter.CFilterMessage.parse(BytesIO(raw2))
+    return a == b
+
+
+IMPL.update({
+    "hex_decode": lambda t: bytes.fromhex(t.decode("utf-8")),
+    "hex_encode": lambda b: b.hex(),
+    "parse_header_hex": i_parse_header_hex,
+    "cfilter_eq": i_cfilter_eq,
+    "cfilter_hash": lambda raw: compactfilter.CFilterMessage.parse(BytesIO(raw)).hash(),
+    "int_to_byte": i_int_to_byte,
+    "byte_to_int": i_byte_to_int,
+    "read_cs": lambda s: list(_ref_read_cs(s)),
+    "p2p_version_decode": _ref_version_decode,
+    "p2p_getheaders_decode": _ref_getheaders_decode,
+    "p2p_getdata_decode": _ref_getdata_decode,
+    "p2p_getcfilters_decode": _ref_getcfilters_decode,
+    "p2p_getcfcheckpt_decode": _ref_getcfcheckpt_decode,
+    "version_default_serialize": i_version_default_serialize,
+    "randint_bounds": i_randint_bounds,
+    "node_send": i_node_send,
+    "node_wait_for": i_node_wait_for,
+    "node_handshake": i_node_handshake,
+})
 
 # ---------------------------------------------------------------- property predicates
 
@@ -566,9 +825,144 @@ def p_codec_session(ops):
     return _run(ops, _codec_step)
 
 
+# ---------------------------------------------------------------- deepening: predicates
+
+def p_version_protocol_layout(v, sv, ts, rs, rip, rp, ss, sip, sp, nonce, ua, lb, relay):
+    """VersionMessage.serialize against the protocol layout (ports in network byte order)"""
+    f = [v, sv, ts, rs, rip, rp, ss, sip, sp, nonce, ua, lb, relay]
+    got = i_version_serialize(*f)
+    if got == _ref_version_layout(f, ">H"):
+        return None
+    if got == _ref_version_layout(f, "<H"):
+        return (f"ports-little-endian: receiver_port={rp} sender_port={sp} are serialised little-endian "
+                f"({struct.pack('<H', rp).hex()}/{struct.pack('<H', sp).hex()}); the protocol puts the port of a "
+                f"network address in network byte order ({struct.pack('>H', rp).hex()}/{struct.pack('>H', sp).hex()})")
+    return "version message differs from the protocol layout in more than the byte order of the ports"
+
+
+def p_version_decodes(v, sv, ts, rs, rip, rp, ss, sip, sp, nonce, ua, lb, relay, rest):
+    """a strict protocol decoder reads back every field (the ports byte-swapped: C19_version_decoded_by_protocol_peer)"""
+    raw = i_version_serialize(v, sv, ts, rs, rip, rp, ss, sip, sp, nonce, ua, lb, relay)
+    got = _ref_version_decode(raw + rest)
+
+    def sw(p):
+        return (p % 256) * 256 + p // 256
+    want = [[v, sv, ts, [rs, b"\x00" * 10 + b"\xff\xff" + rip, sw(rp)], [ss, b"\x00" * 10 + b"\xff\xff" + sip, sw(sp)],
+             nonce, ua, lb, int(bool(relay))], rest]
+    if got != want:
+        return f"protocol decoder reads {got!r}, fields were {want!r}"
+    return None
+
+
+def p_version_default_nonce(now, upper):
+    """VersionMessage() with randint returning its lower (upper=0) or upper (upper=1) bound must not raise"""
+    seen = []
+
+    def pick(a, b):
+        seen.append((a, b))
+        return b if upper else a
+    try:
+        with _Patched(now, pick):
+            m = network.VersionMessage()
+    except Exception as e:
+        return (f"randint-upper-bound: VersionMessage() raised {type(e).__name__} when randint{seen[-1] if seen else ''} "
+                f"returned its {'upper' if upper else 'lower'} bound (randint is inclusive on both ends)")
+    if len(m.nonce) != 8 or m.timestamp != now:
+        return "default VersionMessage has a wrong nonce length or timestamp"
+    return None
+
+
+def p_requests_decode(v, h1, h2, types, ids, t, height, rest):
+    """strict protocol decoders read back what the serialize-only request messages emit"""
+    raw = i_getheaders_serialize(v, 1, h1, h2)
+    if _ref_getheaders_decode(raw + rest) != [v, [h1], h2, rest]:
+        return "getheaders is not decoded back by a protocol decoder"
+    raw = i_getdata_serialize(types, ids)
+    if _ref_getdata_decode(raw + rest) != [[[a, b] for a, b in zip(types, ids)], rest]:
+        return "getdata is not decoded back by a protocol decoder"
+    for cls in (compactfilter.GetCFiltersMessage, compactfilter.GetCFHeadersMessage):
+        raw = cls(filter_type=t, start_height=height, stop_hash=h1).serialize()
+        if _ref_getcfilters_decode(raw + rest) != [t, height, h1, rest]:
+            return cls.__name__ + " is not decoded back by a protocol decoder"
+    raw = i_getcfcheckpt_serialize(t, h1)
+    if _ref_getcfcheckpt_decode(raw + rest) != [t, h1, rest]:
+        return "getcfcheckpt is not decoded back by a protocol decoder"
+    return None
+
+
+def p_varint_strict(s):
+    """whatever a strict ReadCompactSize accepts, read_varint reads identically; encode_varint is canonical"""
+    try:
+        n, r = _ref_read_cs(s)
+    except Exception:
+        return None
+    got = _tryE(i_read_varint, s)
+    if got is ERR or got != [n, r]:
+        return f"strict reader gives ({n}, {r!r}), read_varint gives {got!r}"
+    e = helper.encode_varint(n)
+    if e + r != s:
+        return "canonical encoding accepted by the strict reader is not what encode_varint produces"
+    return None
+
+
+def p_int_byte(n):
+    if 0 <= n < 256:
+        b = helper.int_to_byte(n)
+        if b != bytes([n]) or helper.byte_to_int(b) != n or b != helper.int_to_little_endian(n, 1) or \
+                b != helper.int_to_big_endian(n, 1):
+            return "int_to_byte / byte_to_int do not round-trip"
+    elif not _raises(helper.int_to_byte, n):
+        return f"int_to_byte({n}) did not raise"
+    return None
+
+
+def p_node_stream(net, pre, final_cmd, final_payload, rest):
+    """SimpleNode.wait_for on envelopes laid out by the reference: skips what is not wanted, answers version with
+    verack and ping with pong(nonce) in order, returns the wanted message intact, leaves the stream behind it"""
+    magic = REF_MAGIC[net]
+    stream = b"".join(_lay_env((c, pl, magic)) for c, pl in pre) + _lay_env((final_cmd, final_payload, magic)) + rest
+    want_sent = []
+    for c, pl in list(pre) + [(final_cmd, final_payload)]:
+        if c == b"version":
+            want_sent.append(_lay_env((b"verack", b"", magic)))
+        elif c == b"ping":
+            want_sent.append(_lay_env((b"pong", pl, magic)))
+    cls = CLASSES[final_cmd]
+    want_msg = _tryE(lambda: _msgval(cls.parse(BytesIO(final_payload))))
+    n = _node(net, stream)
+    try:
+        m = n.wait_for(cls)
+    except Exception as e:
+        if want_msg is ERR:
+            return None
+        return f"wait_for raised {type(e).__name__}: {e}"
+    if want_msg is ERR:
+        return "wait_for returned although the payload does not parse"
+    if _msgval(m) != want_msg:
+        return "wait_for returned a different message than the payload carries"
+    if n.stream.read() != rest:
+        return "wait_for left the stream at the wrong place"
+    if n.socket.sent != want_sent:
+        return f"wait_for sent {len(n.socket.sent)} envelope(s), expected {len(want_sent)} (verack per version, pong per ping)"
+    return None
+
+
+def classify(v):
+    """maps a violation to the key of a known finding, or None"""
+    if v.get("kind") != "prop":
+        return None
+    d = v.get("detail") or ""
+    if v["name"] == "version_protocol_layout" and d.startswith("ports-little-endian:"):
+        return "K-C19-version-port-byte-order"
+    return None
+
+
 PROPS = {"varint_rt": p_varint_rt, "varstr_rt": p_varstr_rt, "int_rt": p_int_rt, "env_rt": p_env_rt,
          "env_reject": p_env_reject, "env_short": p_env_short, "header_rt": p_header_rt, "layouts": p_layouts, "msgs_rt": p_msgs_rt,
-         "object_session": p_object_session, "codec_session": p_codec_session}
+         "object_session": p_object_session, "codec_session": p_codec_session,
+         "version_protocol_layout": p_version_protocol_layout, "version_decodes": p_version_decodes,
+         "version_default_nonce": p_version_default_nonce, "requests_decode": p_requests_decode,
+         "varint_strict": p_varint_strict, "int_byte": p_int_byte, "node_stream": p_node_stream}
 
 # ---------------------------------------------------------------- generators
 
@@ -729,6 +1123,227 @@ def codec_session(ctx):
         if r.random() < 0.25:
             ops.insert(r.randrange(len(ops) + 1), op)
     return ops
+
+
+# ---------------------------------------------------------------- deepening: generators
+
+def _rpayload(ctx, cmd):
+    """a payload for a message of this command: mostly valid, sometimes malformed"""
+    r = ctx.rng
+    bad = r.random() < 0.15
+    if cmd == b"verack":
+        return b"" if not bad else ctx.rbytes(r.randrange(1, 4))
+    if cmd in (b"ping", b"pong"):
+        return ctx.rbytes(8 if not bad else r.choice([0, 1, 7, 9, 12]))
+    if cmd == b"headers":
+        nh = r.choice([0, 1, 2, 3])
+        raw = _ref_varint(nh) + b"".join(ctx.rbytes(80) + b"\x00" for _ in range(nh))
+        if bad and nh:
+            raw = raw[:-1] + b"\x01" if r.random() < 0.5 else raw[: r.randrange(1, len(raw))]
+        return raw
+    t, stop = r.randrange(256), ctx.rbytes(32)
+    if cmd == b"cfilter":
+        nit = r.randrange(0, 6)
+        fb = compactfilter.serialize_gcs(sorted(r.randrange(0, max(1, nit) * 784931) for _ in range(nit)))
+        raw = bytes([t]) + stop[::-1] + helper.encode_varstr(fb)
+        return raw if not bad else raw[: r.randrange(0, len(raw))]
+    hashes = [ctx.rbytes(32) for _ in range(r.randrange(0, 4))]
+    if cmd == b"cfheaders":
+        raw = bytes([t]) + stop[::-1] + ctx.rbytes(32) + _ref_varint(len(hashes)) + b"".join(hashes)
+    else:
+        raw = bytes([t]) + stop[::-1] + _ref_varint(len(hashes)) + b"".join(hashes)
+    if bad:                                   # keep the count byte: a cut only shortens the hashes
+        raw = raw[: r.randrange(1, len(raw) + 1)] if cmd == b"cfcheckpt" else raw[: r.randrange(34, len(raw) + 1)]
+        if len(raw) < (66 if cmd == b"cfheaders" else 34):
+            raw = raw[:1]                     # cut before the count: read_varint raises
+    return raw
+
+
+def deep(ctx):
+    r = ctx.rng
+    # --- int_to_byte / byte_to_int
+    for n in [-2, -1, 0, 1, 127, 128, 254, 255, 256, 257, 2 ** 64] + [r.randrange(-300, 600) for _ in range(ctx.n(20, 300))]:
+        ctx.label("int_to_byte/in-range" if 0 <= n < 256 else "int_to_byte/out-of-range")
+        yield ("corr", "int_to_byte", [n])
+        yield ("prop", "int_byte", [n])
+    for b in [b"", b"\x00", b"\xff", b"\x01\x02"] + [ctx.rbytes(r.randrange(0, 4)) for _ in range(ctx.n(10, 100))]:
+        yield ("corr", "byte_to_int", [b])
+    # --- strict CompactSize reader of the Spec against the reference; read_varint extends it
+    cs = [bytes([f]) + ctx.rbytes(t) for f in (0, 1, 0xfc, 0xfd, 0xfe, 0xff) for t in range(0, 10)]
+    cs += [_ref_varint(n) + ctx.rbytes(r.randrange(0, 3)) for n in BOUNDS if 0 <= n < 2 ** 64]
+    cs += [b"\xfd\x00\x00", b"\xfd\xfc\x00", b"\xfd\xfd\x00", b"\xfe\xff\xff\x00\x00", b"\xfe\x00\x00\x01\x00",
+           b"\xff\xff\xff\xff\xff\x00\x00\x00\x00", b"\xff\x00\x00\x00\x00\x01\x00\x00\x00", b"", b"\xfd", b"\xfd\xfd"]
+    cs += [ctx.rbytes(r.randrange(0, 12)) for _ in range(ctx.n(100, 3000))]
+    for x in cs:
+        try:
+            _ref_read_cs(x)
+            ctx.label("read_cs/accepted")
+        except Exception:
+            ctx.label("read_cs/rejected (short, non-canonical or empty)")
+        yield ("corr", "read_cs", [x])
+        yield ("prop", "varint_strict", [x])
+    # --- version: the strict protocol decoder on what the library emits, on a message recorded on mainnet, on damage
+    real = REAL_VERSION_ENVELOPE[24:]
+    ctx.label("version/recorded-mainnet-message")
+    yield ("corr", "p2p_version_decode", [real])
+    yield ("corr", "env_parse", [0, REAL_VERSION_ENVELOPE])
+    for k in range(0, len(real), 7):
+        yield ("corr", "p2p_version_decode", [real[:k]])
+    ports = [0, 257, 0x1f1f, 8333, 18333, 65535, 36128, 1, 256]
+    for i in range(ctx.n(40, 1500)):
+        v = r.choice([70015, 0, 2 ** 32 - 1, r.getrandbits(32)])
+        sv, rs, ss = (r.choice([0, 1, 2 ** 64 - 1, r.getrandbits(64)]) for _ in range(3))
+        ts = r.choice([0, 2 ** 64 - 1, r.getrandbits(40)])
+        rip, sip = ctx.rbytes(4), ctx.rbytes(4)
+        rp = ports[i] if i < len(ports) else r.getrandbits(16)
+        sp = r.choice([rp, r.getrandbits(16)])
+        nonce = ctx.rbytes(8)
+        ua = ctx.rbytes(r.choice([0, 1, 27, 252, 253, 300]))
+        lb = r.choice([0, 2 ** 32 - 1, r.getrandbits(32)])
+        relay = r.randrange(2)
+        f = [v, sv, ts, rs, rip, rp, ss, sip, sp, nonce, ua, lb, relay]
+        raw = i_version_serialize(*f)
+        rest = ctx.rbytes(r.randrange(0, 4))
+        yield ("corr", "version_serialize", f)
+        yield ("corr", "p2p_version_decode", [raw + rest])
+        yield ("corr", "p2p_version_decode", [raw[: r.randrange(0, len(raw))]])
+        bad = bytearray(raw)
+        bad[r.randrange(len(bad))] ^= 1 << r.randrange(8)
+        yield ("corr", "p2p_version_decode", [bytes(bad)])
+        yield ("prop", "version_decodes", f + [rest])
+        pal = rp // 256 == rp % 256 and sp // 256 == sp % 256
+        ctx.label("version/ports-read-the-same-in-both-byte-orders" if pal else "version/ports-little-endian (known finding)")
+        if pal or i < 12 or r.random() < 0.05:
+            yield ("prop", "version_protocol_layout", f)
+        # IP / nonce of other lengths are serialised as they are: the strict decoder then mis-frames or fails
+        if r.random() < 0.2:
+            g = list(f)
+            g[4] = ctx.rbytes(r.choice([0, 3, 5, 16]))
+            g[9] = ctx.rbytes(r.choice([0, 7, 8, 9]))
+            yield ("corr", "version_serialize", g)
+            yield ("corr", "p2p_version_decode", [i_version_serialize(*g)])
+    # --- default VersionMessage(): timestamp from time.time(), nonce from randint(0, 2**64 - 1); 2**64 (the inclusive
+    #     bound before the fix 7914d9d) is outside what randint can return and is kept as an int_to_little_endian case
+    yield ("corr", "randint_bounds", [])
+    for now in [0, 1, 1700000000, 2 ** 64 - 1, 2 ** 64, -1]:
+        for rr in [0, 1, 2 ** 63, 2 ** 64 - 1, 2 ** 64, r.getrandbits(64)]:
+            ctx.label("version-default/value-beyond-randint-range" if rr == 2 ** 64 else "version-default/ok-or-timestamp-range")
+            yield ("corr", "version_default_serialize", [now, rr])
+    yield ("prop", "version_default_nonce", [1700000000, 0])
+    yield ("prop", "version_default_nonce", [1700000000, 1])
+    # --- serialize-only requests against the strict decoders
+    for _ in range(ctx.n(40, 1500)):
+        v = r.choice([70015, 0, 2 ** 32 - 1, r.getrandbits(32)])
+        h1, h2 = ctx.rbytes(32), ctx.rbytes(32)
+        k = r.choice([0, 1, 2, 3, 252, 253]) if r.random() < 0.2 else r.randrange(0, 5)
+        types = [r.choice([1, 2, 3, 4, (1 << 30) + 1, r.getrandbits(32)]) for _ in range(k)]
+        ids = [ctx.rbytes(32) for _ in range(k)]
+        t, height = r.randrange(256), r.choice([0, 2 ** 32 - 1, r.getrandbits(32)])
+        rest = ctx.rbytes(r.randrange(0, 4))
+        yield ("prop", "requests_decode", [v, h1, h2, types, ids, t, height, rest])
+        for nh in (1, 1, r.choice([0, 2, 3, 252, 253, 65536, 2 ** 32, 2 ** 64 - 1])):
+            raw = i_getheaders_serialize(v, nh, h1, h2)
+            ctx.label("getheaders/num_hashes=1" if nh == 1 else "getheaders/num_hashes!=1 (count does not match)")
+            yield ("corr", "p2p_getheaders_decode", [raw + rest])
+            yield ("corr", "p2p_getheaders_decode", [raw[: r.randrange(0, len(raw))]])
+        raw = i_getdata_serialize(types, ids)
+        yield ("corr", "p2p_getdata_decode", [raw + rest])
+        yield ("corr", "p2p_getdata_decode", [raw[: r.randrange(0, len(raw))]])
+        raw = i_getcfilters_serialize(t, height, h1)
+        yield ("corr", "p2p_getcfilters_decode", [raw + rest])
+        yield ("corr", "p2p_getcfilters_decode", [raw[: r.randrange(0, len(raw))]])
+        raw = i_getcfcheckpt_serialize(t, h1)
+        yield ("corr", "p2p_getcfcheckpt_decode", [raw + rest])
+        yield ("corr", "p2p_getcfcheckpt_decode", [raw[: r.randrange(0, len(raw))]])
+        for fn in ("p2p_getheaders_decode", "p2p_getdata_decode"):
+            yield ("corr", fn, [ctx.rbytes(r.randrange(0, 80))])
+    # --- Block.parse_header(hex=...), bytes.fromhex / hex; CFilterMessage.__eq__ / hash
+    for _ in range(ctx.n(40, 1000)):
+        raw = ctx.rbytes(r.choice([80, 80, 80, 0, 1, 79, 81, r.randrange(0, 100)]))
+        text = raw.hex()
+        x = r.random()
+        if x < 0.15:
+            text = text.upper()
+        elif x < 0.3 and text:               # white space between pairs / inside a pair, odd length, a non-hex character
+            k = r.randrange(0, len(text) + 1)
+            text = text[:k] + r.choice([" ", "\n", "\t ", "\x0b", "g", "\u00e9", "0", "_"]) + text[k:]
+        ctx.label("parse_header/hex-entry")
+        yield ("corr", "parse_header_hex", [text])
+        yield ("corr", "hex_decode", [text])
+        yield ("corr", "hex_encode", [raw])
+    for _ in range(ctx.n(30, 600)):
+        def one():
+            nit = r.randrange(0, 5)
+            fb = compactfilter.serialize_gcs(sorted(r.randrange(0, max(1, nit) * 784931) for _ in range(nit)))
+            return [r.randrange(3), ctx.rbytes(32), fb]
+        a = one()
+        b = list(a) if r.random() < 0.5 else one()
+        if r.random() < 0.4:
+            i = r.randrange(3)
+            b[i] = one()[i]
+        ra, rb = (bytes([m[0]]) + m[1][::-1] + helper.encode_varstr(m[2]) for m in (a, b))
+        ctx.label("cfilter/__eq__ equal" if a == b else "cfilter/__eq__ different")
+        yield ("corr", "cfilter_eq", [ra, rb + ctx.rbytes(r.randrange(0, 3))])
+        yield ("corr", "cfilter_hash", [ra])
+        yield ("corr", "cfilter_eq", [ra, rb[: r.randrange(0, len(rb))]])
+    # --- SimpleNode.send / wait_for / handshake on an in-memory stream
+    for cmd in [b"", b"a", b"version", b"getcfcheckpt", b"abcdefghijklm", b"\x00x", b"x\x00"]:
+        for ln in (0, 1, 100):
+            yield ("corr", "node_send", [r.randrange(4), cmd, ctx.rbytes(ln)])
+    others = [b"version", b"ping", b"pong", b"verack", b"inv", b"addr", b"sendheaders", b"feefilter", b""]
+    for i in range(ctx.n(80, 3000)):
+        net = r.randrange(4)
+        magic = REF_MAGIC[net]
+        final = r.choice(list(CLASSES))
+        pre = []
+        for _ in range(r.choice([0, 0, 1, 2, 3, 5])):
+            c = r.choice(others + [rcmd(r)])
+            if c == final:
+                continue
+            pl = _rpayload(ctx, c) if c in CLASSES else ctx.rbytes(r.choice([0, 8, r.randrange(0, 120)]))
+            pre.append([c, pl])
+        fpl = _rpayload(ctx, final)
+        rest = ctx.rbytes(r.randrange(0, 5))
+        wanted = [final] + ([r.choice(list(CLASSES))] if r.random() < 0.3 else [])
+        stream = b"".join(_lay_env((c, pl, magic)) for c, pl in pre) + _lay_env((final, fpl, magic)) + rest
+        ctx.label(f"node/wait_for {final.decode()} after {min(len(pre), 3)}{'+' if len(pre) > 3 else ''} other envelope(s)")
+        yield ("corr", "node_wait_for", [net, wanted, stream])
+        if len(wanted) == 1:
+            yield ("prop", "node_stream", [net, pre, final, fpl, rest])
+        x = r.random()
+        if x < 0.25:                          # stream ends early
+            ctx.label("node/stream-truncated")
+            yield ("corr", "node_wait_for", [net, wanted, stream[: r.randrange(0, len(stream))]])
+        elif x < 0.5:                         # one byte damaged somewhere
+            ctx.label("node/stream-byte-corrupted")
+            bad = bytearray(stream)
+            bad[r.randrange(len(bad))] ^= 1 << r.randrange(8)
+            yield ("corr", "node_wait_for", [net, wanted, bytes(bad)])
+        elif x < 0.6:                         # read as another network
+            ctx.label("node/other-network")
+            yield ("corr", "node_wait_for", [(net + 1) % 4, wanted, stream])
+        elif x < 0.7:                         # nothing wanted ever arrives
+            ctx.label("node/wanted-never-arrives")
+            yield ("corr", "node_wait_for", [net, [c for c in CLASSES if c != final and all(c != p[0] for p in pre)][:2],
+                                            stream])
+        elif x < 0.75:
+            ctx.label("node/no-class-given")
+            yield ("corr", "node_wait_for", [net, [], stream])
+    for i in range(ctx.n(12, 200)):
+        net = r.randrange(4)
+        magic = REF_MAGIC[net]
+        now = r.choice([0, 1700000000, 2 ** 64 - 1, 2 ** 64]) if i % 5 == 4 else 1600000000 + r.getrandbits(28)
+        rr = r.choice([0, 2 ** 64 - 1, 2 ** 64]) if i % 4 == 3 else r.getrandbits(64)
+        peer = [(b"version", REAL_VERSION_ENVELOPE[24:] if r.random() < 0.5 else ctx.rbytes(r.randrange(0, 120)))]
+        if r.random() < 0.3:
+            peer.append((b"ping", ctx.rbytes(8)))
+        if r.random() < 0.85:
+            peer.append((b"verack", b""))
+        if r.random() < 0.2:
+            r.shuffle(peer)
+        stream = b"".join(_lay_env((c, pl, magic)) for c, pl in peer) + ctx.rbytes(r.randrange(0, 4))
+        ctx.label("node/handshake")
+        yield ("corr", "node_handshake", [net, now, rr, stream])
 
 
 def histories(ctx):
@@ -913,5 +1528,7 @@ def generate(ctx):
         bad[r.randrange(33, len(bad))] ^= 1 << r.randrange(8)
         yield ("corr", "cfilter_parse", [bytes(bad)])
         yield ("prop", "msgs_rt", [ctx.rbytes(8), hdrs, t, stop, prev, hashes, sorted(set(fitems))])
+    # --- deepening: protocol decoders, default version message, SimpleNode on an in-memory stream
+    yield from deep(ctx)
     # --- histories: objects queried repeatedly and edited in between; module-level codecs in arbitrary order
     yield from histories(ctx)
